@@ -50,6 +50,31 @@ CHECKS = {
              "break/continue/return or block level survived.",
         note="trusted: the reference interpreter vf/ctl.py; the interactive statement loop of the bloc command is covered by the C19 check",
         design="DESIGN.md section 4, C07"),
+    "C01": dict(
+        engine="E1 space",
+        technique="bounded exhaustive sweeps of byte strings, token strings, single deviations from valid programs and the vocabulary x argument-value product, executed on the real interpreter under ASan+UBSan with fork isolation",
+        text="Swept completely: all byte strings of length <=2 and of length 3 (4 and 5 in thorough) over scanner character classes; all token strings of "
+             "length <=3 (4) over representative tokens in a context holding a variable, a table, a tuple and a function; every truncation, token deletion, "
+             "adjacent swap, duplication and single-byte substitution of 36 valid seed programs covering every statement and expression form; every "
+             "builtin, operator, type method and @rank applied to every argument tuple of a boundary value alphabet (typical, boundary, typed null and "
+             "untyped null values of every type, as literals and as variables); each text through the C++ API and the C API, representatives through the "
+             "bloc command (file and stdin). Oracle: the outcome is completion, a parse error or a runtime error; no signal, no ASan/UBSan report, no "
+             "foreign exception, no step-budget hit without a loop, no CPU-watchdog hang.",
+        note="trusted: clang 14 ASan+UBSan; size arguments capped at 65536 (allocation exhaustion is outside the property's domain); texts outside the alphabets are not covered",
+        design="DESIGN.md section 4, C01"),
+    "C08": dict(
+        engine="E2 hist",
+        technique="exhaustive enumeration of all call histories up to a bound before each probe call, differential against a fresh context and against a model value",
+        text="For each of 24 function groups (conditionally assigned locals of integer/string/table type, accumulating local, loop with early return, "
+             "recursion, mutual recursion through redefinition, parameter mutation of table/string/integer, handled and unhandled errors, errors inside "
+             "forall/for/while in the callee, nested return, overloads by arity, printing, type-changing and $-constrained locals, missing return) and each "
+             "probe call, all histories of <=3 (quick) / <=4 (thorough) earlier calls over the group's call alphabet - including calls that fail inside and "
+             "calls whose argument evaluation fails - are executed; the probe call's output/result must equal the same call in a fresh context and the "
+             "model value. Caller variables must be unchanged, bodies naming caller variables must be rejected, recursion depths 250..261 (also after "
+             "earlier deep or failed recursions) must succeed up to 255 nested calls and raise the recursion-limit error at the 256th, and LeakSanitizer "
+             "must be silent after histories containing failing calls.",
+        note="trusted: hand-written expected value per call, LeakSanitizer; histories longer than the bound are not covered",
+        design="DESIGN.md section 4, C08"),
 }
 
 NOT_YET = {}
